@@ -598,7 +598,17 @@ class TimeTriggeredPlanValidator(engines.engine.Engine, mixins.PlanValidatorMixi
             plan_duration = max(plan_duration, scheduled_effects[-1][0])
             next_id += 1
 
+        final_goals: List[FNode] = list(problem.goals)
         for interval, goals in problem.timed_goals.items():
+            if (
+                interval.lower.is_from_end()
+                and interval.upper.is_from_end()
+                and interval.lower.delay == 0
+                and interval.upper.delay == 0
+            ):
+                # goal required exactly at the end of the plan: checked in the final state
+                final_goals.extend(goals)
+                continue
             iint = self._instantiate_interval(
                 interval=interval,
                 action_start=Fraction(0),
@@ -827,7 +837,7 @@ class TimeTriggeredPlanValidator(engines.engine.Engine, mixins.PlanValidatorMixi
                             calculated_interpreted_functions=se.if_values,
                         )
 
-        for g in problem.goals:
+        for g in final_goals:
             try:
                 is_satisfied = self._check_condition(
                     state=last_state, se=se, condition=g
